@@ -55,6 +55,18 @@ NumChurn ==
     {Ev("GetChurnLimit", <<F(n), F(c[1]), F(c[2])>>, "ok", F(MaxI(c[1], n \div c[2]))) : n \in 0..400, c \in ChurnCfg}
     \cup {Ev("ActivationChurnLimit", <<F(x), F(y)>>, "ok", F(MinI(x, y))) : x \in 0..20, y \in 0..20}
 
+\* <<MIN_PER_EPOCH_CHURN_LIMIT, CHURN_LIMIT_QUOTIENT, MAX_PER_EPOCH_ACTIVATION_CHURN_LIMIT>>:
+\* cap below / equal to / above the minimum churn (incl. cap 0), quotient small and large
+ActChurnCfg == {<<4, 65536, 8>>, <<2, 32, 4>>,                                  \* mainnet, minimal
+                <<4, 32, 4>>, <<4, 32, 1>>, <<8, 65536, 3>>, <<2, 32, 0>>,        \* cap = min, cap < min, cap 0
+                <<4, 2, 100>>, <<3, 7, 2>>, <<3, 7, 3>>, <<3, 7, 5>>, <<1, 1, 0>>, <<0, 5, 2>>, <<5, 1, 9>>}
+ActChurnActives(c) ==     \* around every breakpoint: min*quot, cap*quot, multiples of the quotient
+    (0..160) \cup UNION {{k * c[2] - 1, k * c[2], k * c[2] + 1} : k \in {1, 2, c[1], c[1] + 1, c[3], c[3] + 1, 9}}
+NumActChurn ==
+    UNION {{Ev("ValidatorActivationChurnLimit", <<F(n), F(c[1]), F(c[2]), F(c[3])>>, "ok",
+               F(MinI(c[3], MaxI(c[1], n \div c[2]))))
+            : n \in {x \in ActChurnActives(c) : x >= 0}} : c \in ActChurnCfg}
+
 CommCfg == {<<4, 2, 2>>, <<8, 4, 4>>, <<32, 128, 64>>, <<1, 1, 1>>, <<3, 5, 7>>, <<2, 3, 5>>}
 NumComm ==
     {Ev("CommitteeCount", <<F(n), F(c[1]), F(c[2]), F(c[3])>>, "ok",
@@ -68,7 +80,7 @@ NumSpan ==
      : s \in 0..9, sp \in 0..3, lo \in 0..10, hi \in 0..10}
 
 NumEvents == NumOne \cup NumMaxMin \cup NumSlots \cup NumTimeDefined \cup NumLookahead
-             \cup NumChurn \cup NumComm \cup NumSpan
+             \cup NumChurn \cup NumActChurn \cup NumComm \cup NumSpan
 
 (* ---------------- 64-bit boundaries, BigNat ---------------- *)
 Edge == {Pow2(k) : k \in 0..63} \cup {Pred(Pow2(k)) : k \in 0..64} \cup {Succ(Pow2(k)) : k \in 0..63}
@@ -97,6 +109,11 @@ BigMaxMin ==
              Ev("MinU64", <<x, y>>, "ok", MinB(x, y)),
              Ev("ActivationChurnLimit", <<x, y>>, "ok", MinB(x, y)) } : x \in EdgeFew, y \in EdgeFew}
 
+\* activation churn at the 64-bit edges: quotient 1 makes the churn the active count itself
+BigActChurn ==
+    {Ev("ValidatorActivationChurnLimit", <<n, lo, One, cap>>, "ok", MinB(cap, MaxB(lo, n)))
+     : n \in EdgeFew, lo \in {Zero, F(4), Pow2(32), U64Max}, cap \in {Zero, One, F(3), F(4), F(8), Pow2(63), U64Max}}
+
 ExactOrErr(fn, args, exact) == IF FitsU64(exact) THEN Ev(fn, args, "ok", exact) ELSE Ev(fn, args, "err", Zero)
 
 BigSpes == {One, F(2), F(3), F(8), F(32), Pow2(31), Pow2(32), Pred(Pow2(32)), Pow2(63), U64Max}
@@ -115,7 +132,7 @@ BigSpan ==
 \* when slot+span is not representable both answers can be allowed; emit only determined cases
 BigSpanDetermined == {e \in BigSpan : FitsU64(Add(e.a[1], e.a[2])) \/ e.out = "err"}
 
-BigEvents == BigOne \cup BigMaxMin \cup BigSlots \cup BigTime \cup BigLookahead \cup BigSpanDetermined
+BigEvents == BigOne \cup BigMaxMin \cup BigActChurn \cup BigSlots \cup BigTime \cup BigLookahead \cup BigSpanDetermined
 
 (* ---------------- Merkle branches over a TLC-chosen hash oracle ---------------- *)
 Alpha == <<"a", "b", "c">>
@@ -143,8 +160,8 @@ MerkleHuge ==
        idx \in {Zero, One}, leaf \in {"a"}, root \in AlphaSet}
 
 (* ---------------- emit ---------------- *)
-ChunkSets == CASE Part = "num" -> <<NumOne, NumMaxMin, NumSlots, NumTimeDefined, NumLookahead, NumChurn, NumComm, NumSpan>>
-               [] Part = "big" -> <<BigOne, BigMaxMin, BigSlots, BigTime, BigLookahead, BigSpanDetermined>>
+ChunkSets == CASE Part = "num" -> <<NumOne, NumMaxMin, NumSlots, NumTimeDefined, NumLookahead, NumChurn, NumActChurn, NumComm, NumSpan>>
+               [] Part = "big" -> <<BigOne, BigMaxMin, BigActChurn, BigSlots, BigTime, BigLookahead, BigSpanDetermined>>
                [] Part = "merkle" -> [k \in 1..(Len(MerkleChunks) + 1) |->
                                         IF k <= Len(MerkleChunks) THEN MerkleChunk(MerkleChunks[k]) ELSE MerkleHuge]
 
